@@ -43,25 +43,31 @@ structure TInfo where
   isLoop : Bool
   spec : ExtraSpec
   started : Bool := false
+  queued : Bool := false      -- a step of this task sits in the ready queue
   idx : Nat := 0
   cleanup : Bool := false
   wake : Option Int := none
+  regs : List Nat := []       -- calls that registered a done-callback on this task, in order
 deriving Inhabited
 
-inductive Pend
-  | task (a i : Nat)
-  | call (a : Nat) (k : CallKind)
-  | run (actors : List Nat)
+/-- Entries of the event loop's ready queue (FIFO). -/
+inductive Item
+  | step (a i : Nat)                      -- task `i` of actor `a` runs one step
+  | callFirst (a : Nat) (k : CallKind)    -- first step of a stop()/wait() issued by the control script
+  | runFirst (actors : List Nat)          -- first step of run(*actors)
+  | runWait (r : Nat)                     -- first step of one wait() task created by run()
+  | doneCb (a i : Nat) (cs : List Nat)    -- done-callbacks of task `i` registered by the calls `cs`
+  | wake (a c : Nat)                      -- call `c` resumes from `asyncio.wait`
 deriving Inhabited
 
 structure Sim where
   sys : Sys
   scripts : Array (Array RunScript)
   info : Array (Array TInfo)
-  pend : Array Pend := #[]
+  queue : Array Item := #[]
+  rem : Array (Array Nat)                 -- per actor, per call: batch members whose callback has not run yet
   ctlCalls : Array (Array Nat)
   nLoops : Array Nat
-  progress : Bool := false
 
 def parseOutcome (s : String) : Except String Outcome :=
   match s with
@@ -95,7 +101,8 @@ def svc (m : Sim) (a : Nat) : Svc := m.sys.svcs[a]!
 def task (m : Sim) (a i : Nat) : Tsk := (m.svc a).tasks[i]!
 def now (m : Sim) : Int := m.sys.now
 
-def emit (m : Sim) (e : SysEvent) : Sim := { m with sys := m.sys.step e, progress := true }
+def emit (m : Sim) (e : SysEvent) : Sim := { m with sys := m.sys.step e }
+def push (m : Sim) (it : Item) : Sim := { m with queue := m.queue.push it }
 
 def setInfo (m : Sim) (a i : Nat) (f : TInfo → TInfo) : Sim :=
   { m with info := m.info.modify a (fun arr => arr.modify i f) }
@@ -104,150 +111,178 @@ def script (m : Sim) (a n : Nat) : RunScript :=
   let sc := m.scripts[a]!
   if sc.size = 0 then { aw := #[], fin := .ret, ocD := 0, ocEnd := .cancelled } else sc[min n (sc.size - 1)]!
 
-/-- Register bookkeeping for tasks the model created since `before` (ids are positions). -/
-def noteNewTasks (m : Sim) (a : Nat) (before : Nat) (mk : Nat → Tsk → Sim → TInfo) : Sim := Id.run do
+/-- Bookkeeping for tasks the model created since `before` (ids are positions); their first step is queued. -/
+def noteNewTasks (m : Sim) (a : Nat) (before : Nat) (mk : Sim → TInfo) : Sim := Id.run do
   let mut m := m
-  let ts := (m.svc a).tasks
-  for i in [before:ts.length] do
-    let ti := mk i ts[i]! m
-    m := { m with info := m.info.modify a (·.push ti), pend := m.pend.push (.task a i) }
+  let n := (m.svc a).tasks.length
+  for i in [before:n] do
+    let ti := { mk m with queued := true }
+    m := { m with info := m.info.modify a (·.push ti) }
+    m := m.push (.step a i)
   return m
 
-def loopInfo (a : Nat) (_i : Nat) (_t : Tsk) (m : Sim) : TInfo :=
-  { label := s!"L{m.nLoops[a]!}", isLoop := true, spec := default }
-
-def doStart (m : Sim) (a : Nat) (ev : SysEvent) : Sim := Id.run do
-  -- `ev` may create run-loop tasks on several actors (`runCall`); note them all
+/-- Run an event that may create run-loop tasks (start / runCall) and note them. -/
+def emitStarting (m : Sim) (ev : SysEvent) : Sim := Id.run do
   let before := m.sys.svcs.map (·.tasks.length)
   let mut m := m.emit ev
   for b in [0:m.sys.svcs.length] do
     let nb := before[b]!
     if (m.svc b).tasks.length > nb then
-      m := m.noteNewTasks b nb (loopInfo b)
+      m := m.noteNewTasks b nb (fun m => { label := s!"L{m.nLoops[b]!}", isLoop := true, spec := default })
       m := { m with nLoops := m.nLoops.modify b (· + 1) }
-  let _ := a
   return m
 
-/-- The task has just entered invocation `n` of `_run()`: run the script up to its first await. -/
-def beginRun (m : Sim) (a i : Nat) : Sim :=
+/-- `task.cancel()` was called on the owned live tasks of actor `a`: wake those that are suspended. -/
+def queueCancelled (m : Sim) (a : Nat) : Sim := Id.run do
+  let mut m := m
+  for i in [0:(m.svc a).tasks.length] do
+    let t := m.task a i
+    if t.cancelReq && !t.isDone && !(m.info[a]![i]!.queued) then
+      m := (m.setInfo a i (fun ti => { ti with queued := true })).push (.step a i)
+  return m
+
+def blockedBatch (m : Sim) (a c : Nat) : Option (List Nat) :=
+  match (m.svc a).callers[c]? with
+  | some cl => (match cl.st with | .blocked b => some b | _ => none)
+  | none => none
+
+/-- Call `c` has just entered `asyncio.wait(batch)`: callbacks on finished members fire on the next iteration. -/
+def registerCall (m : Sim) (a c : Nat) : Sim := Id.run do
+  let mut m := m
+  while m.rem[a]!.size ≤ c do
+    m := { m with rem := m.rem.modify a (·.push 0) }
+  match m.blockedBatch a c with
+  | none => return m
+  | some batch =>
+    let members := (m.svc a).tasks.filter (fun t => batch.contains t.id)
+    m := { m with rem := m.rem.modify a (·.set! c members.length) }
+    for t in members do
+      if t.isDone then m := m.push (.doneCb a t.id [c])
+      else m := m.setInfo a t.id (fun ti => { ti with regs := ti.regs ++ [c] })
+    return m
+
+/-- Task `i` has just finished: schedule the callbacks of the calls that wait for it. -/
+def taskFinished (m : Sim) (a i : Nat) : Sim :=
+  let cs := m.info[a]![i]!.regs.filter (fun c =>
+    c < m.rem[a]!.size && (match m.blockedBatch a c with | some b => b.contains i | none => false))
+  let m := m.setInfo a i (fun ti => { ti with wake := none })
+  if cs.isEmpty then m else m.push (.doneCb a i cs)
+
+/-- Position the run-loop task after the model moved it: derive its next timer from the phase. -/
+def settleLoop (m : Sim) (a i : Nat) : Sim :=
   match (m.task a i).phase with
+  | .delay _ u => m.setInfo a i (fun ti => { ti with wake := some u, cleanup := false, idx := 0 })
   | .running n =>
     let sc := m.script a n
     if sc.aw.size = 0 then
+      -- `_run()` ends without awaiting: same scheduler step
       let m := m.emit (.svc a (.taskStep i (.fin sc.fin)))
-      m.setInfo a i (fun ti => { ti with idx := 0, cleanup := false, wake := none })
+      match (m.task a i).phase with
+      | .delay _ u => m.setInfo a i (fun ti => { ti with wake := some u, cleanup := false, idx := 0 })
+      | .done _ => m.taskFinished a i
+      | _ => m.setInfo a i (fun ti => { ti with wake := none })   -- restart without delay: not simulated further
     else m.setInfo a i (fun ti => { ti with idx := 0, cleanup := false, wake := some (m.now + sc.aw[0]!) })
+  | .done _ => m.taskFinished a i
   | _ => m
 
-/-- After a step of a run-loop task: derive its next wake-up from the model's phase. -/
-def afterLoopStep (m : Sim) (a i : Nat) : Sim :=
-  match (m.task a i).phase with
-  | .delay _ u => m.setInfo a i (fun ti => { ti with wake := some u, cleanup := false })
-  | .running _ => m.beginRun a i        -- restarted without delay (only if `delayApplies` says so)
-  | _ => m.setInfo a i (fun ti => { ti with wake := none })
-
-def firstStep (m : Sim) (a i : Nat) : Sim :=
-  let ti := m.info[a]![i]!
-  let m := m.setInfo a i (fun ti => { ti with started := true })
-  if ti.isLoop then
-    let m := m.emit (.svc a (.taskStep i .cont))
-    match (m.task a i).phase with
-    | .running _ => m.beginRun a i
-    | .delay _ u => m.setInfo a i (fun ti => { ti with wake := some u })
-    | _ => m
-  else if (m.task a i).cancelReq then m.emit (.svc a (.taskStep i (.fin .cancelled)))
-  else m.setInfo a i (fun ti => { ti with wake := some (m.now + ti.spec.dur) })
-
-def drainPend (m : Sim) : Sim := Id.run do
-  let mut m := m
-  let mut k := 0
-  -- items may be appended while we go (run → new tasks)
-  while k < m.pend.size do
-    match m.pend[k]! with
-    | .task a i => m := m.firstStep a i
-    | .call a kind =>
-      let c := (m.svc a).callers.length
-      m := m.emit (.svc a (.call kind))
-      m := { m with ctlCalls := m.ctlCalls.modify a (·.push c) }
-    | .run actors => m := m.doStart 0 (.runCall actors)
-    k := k + 1
-  return { m with pend := #[] }
-
-/-- Deliver a pending cancellation to task `i` (it has started) or fire its timer. -/
-def taskTurn (m : Sim) (a i : Nat) : Sim :=
+def stepTask (m : Sim) (a i : Nat) : Sim :=
+  let m := m.setInfo a i (fun ti => { ti with queued := false })
   let t := m.task a i
   let ti := m.info[a]![i]!
-  if t.isDone || !ti.started then m
+  if t.isDone then m
+  else if !ti.started then
+    let m := m.setInfo a i (fun ti => { ti with started := true })
+    if ti.isLoop then (m.emit (.svc a (.taskStep i .cont))).settleLoop a i
+    else if t.cancelReq then (m.emit (.svc a (.taskStep i (.fin .cancelled)))).taskFinished a i
+    else if ti.spec.dur = 0 then
+      -- `await asyncio.sleep(0)` is a bare yield: the next step is queued at once
+      (m.setInfo a i (fun ti => { ti with wake := some m.now, queued := true })).push (.step a i)
+    else m.setInfo a i (fun ti => { ti with wake := some (m.now + ti.spec.dur) })
   else if t.cancelReq then
     match t.phase with
     | .running n =>
       let sc := m.script a n
-      if ti.cleanup then (m.emit (.svc a (.taskStep i (.fin .cancelled)))).afterLoopStep a i
-      else if sc.ocD = 0 then (m.emit (.svc a (.taskStep i (.fin sc.ocEnd)))).afterLoopStep a i
+      if ti.cleanup then (m.emit (.svc a (.taskStep i (.fin .cancelled)))).settleLoop a i
+      else if sc.ocD = 0 then (m.emit (.svc a (.taskStep i (.fin sc.ocEnd)))).settleLoop a i
       else (m.emit (.svc a (.taskStep i .cont))).setInfo a i
              (fun ti => { ti with cleanup := true, wake := some (m.now + sc.ocD) })
     | .extra =>
-      if ti.cleanup then m.emit (.svc a (.taskStep i (.fin .cancelled)))
+      if ti.cleanup then (m.emit (.svc a (.taskStep i (.fin .cancelled)))).taskFinished a i
       else
         let m := match ti.spec.spawn with
           | some (d, e, d2, e2) =>
             let before := (m.svc a).tasks.length
             let m := m.emit (.svc a .addTask)
-            m.noteNewTasks a before (fun _ _ _ =>
+            m.noteNewTasks a before (fun _ =>
               { label := ti.label ++ "c", isLoop := false,
                 spec := { label := ti.label ++ "c", dur := d, fin := e, ocD := d2, ocEnd := e2, spawn := none } })
           | none => m
-        if ti.spec.ocD = 0 then m.emit (.svc a (.taskStep i (.fin ti.spec.ocEnd)))
+        if ti.spec.ocD = 0 then (m.emit (.svc a (.taskStep i (.fin ti.spec.ocEnd)))).taskFinished a i
         else (m.emit (.svc a (.taskStep i .cont))).setInfo a i
                (fun ti => { ti with cleanup := true, wake := some (m.now + ti.spec.ocD) })
-    | _ => (m.emit (.svc a (.taskStep i .cont))).afterLoopStep a i     -- delay: library code, ends cancelled
+    | _ => (m.emit (.svc a (.taskStep i .cont))).settleLoop a i     -- in `_delay_if_restart`: ends cancelled
   else
     match ti.wake with
     | none => m
     | some w =>
       if w > m.now then m
       else match t.phase with
-        | .delay _ _ =>
-          let m := m.emit (.svc a (.taskStep i .cont))
-          m.afterLoopStep a i
+        | .delay _ _ => (m.emit (.svc a (.taskStep i .cont))).settleLoop a i
         | .running n =>
           let sc := m.script a n
-          if ti.cleanup then (m.emit (.svc a (.taskStep i (.fin sc.ocEnd)))).afterLoopStep a i
+          if ti.cleanup then (m.emit (.svc a (.taskStep i (.fin sc.ocEnd)))).settleLoop a i
           else if ti.idx + 1 < sc.aw.size then
             (m.emit (.svc a (.taskStep i .cont))).setInfo a i
               (fun ti => { ti with idx := ti.idx + 1, wake := some (m.now + sc.aw[ti.idx + 1]!) })
-          else (m.emit (.svc a (.taskStep i (.fin sc.fin)))).afterLoopStep a i
+          else (m.emit (.svc a (.taskStep i (.fin sc.fin)))).settleLoop a i
         | .extra =>
           let o := if ti.cleanup then ti.spec.ocEnd else ti.spec.fin
-          (m.emit (.svc a (.taskStep i (.fin o)))).setInfo a i (fun ti => { ti with wake := none })
+          (m.emit (.svc a (.taskStep i (.fin o)))).taskFinished a i
         | _ => m
 
-def callersTurn (m : Sim) : Sim := Id.run do
-  let mut m := m
-  for a in [0:m.sys.svcs.length] do
-    for c in [0:(m.svc a).callers.length] do
-      let s := m.svc a
-      match s.callers[c]!.st with
-      | .blocked batch => if batchDone s.tasks batch then m := m.emit (.svc a (.wake c))
-      | _ => pure ()
-  for r in [0:m.sys.runs.length] do
-    let rec_ := m.sys.runs[r]!
-    if rec_.returned.isNone && rec_.waiters.all (waiterFinished m.sys.svcs) then m := m.emit (.runReturn r)
-  return m
+def handle (m : Sim) (it : Item) : Sim :=
+  match it with
+  | .step a i => m.stepTask a i
+  | .callFirst a k =>
+    let c := (m.svc a).callers.length
+    let m := m.emit (.svc a (.call k))
+    let m := { m with ctlCalls := m.ctlCalls.modify a (·.push c) }
+    (m.queueCancelled a).registerCall a c
+  | .runFirst actors => Id.run do
+    let r := m.sys.runs.length
+    let mut m := m.emitStarting (.runCall actors)
+    for _ in m.sys.runs[r]!.pending do
+      m := m.push (.runWait r)
+    return m
+  | .runWait r =>
+    match m.sys.runs[r]!.pending with
+    | [] => m
+    | a :: _ =>
+      let c := (m.svc a).callers.length
+      (m.emit (.runWait r)).registerCall a c
+  | .doneCb a _ cs => Id.run do
+    let mut m := m
+    for c in cs do
+      let r := m.rem[a]![c]!
+      if r > 0 then
+        m := { m with rem := m.rem.modify a (·.set! c (r - 1)) }
+        if r = 1 then m := m.push (.wake a c)
+    return m
+  | .wake a c =>
+    let m := m.emit (.svc a (.wake c))
+    (m.queueCancelled a).registerCall a c
 
-/-- Everything that happens at the current instant. -/
+/-- Everything that happens at the current instant: run the ready queue (FIFO) until it is empty. -/
 def drain (m : Sim) : Sim := Id.run do
   let mut m := m
-  let mut fuel := 10000
-  while fuel > 0 do
-    fuel := fuel - 1
-    m := { m with progress := false }
-    m := m.drainPend
-    for a in [0:m.sys.svcs.length] do
-      for i in [0:(m.svc a).tasks.length] do
-        m := m.taskTurn a i
-    m := m.callersTurn
-    if !m.progress && m.pend.size = 0 then break
+  let mut k := 0
+  while k < m.queue.size && k < 100000 do
+    m := m.handle m.queue[k]!
+    k := k + 1
+  m := { m with queue := #[] }
+  for r in [0:m.sys.runs.length] do
+    let rec_ := m.sys.runs[r]!
+    if rec_.returned.isNone && runDone m.sys.svcs rec_ then m := m.emit (.runReturn r)
   return m
 
 def nextWake (m : Sim) : Option Int := Id.run do
@@ -260,6 +295,18 @@ def nextWake (m : Sim) : Option Int := Id.run do
         | none => pure ()
   return best
 
+/-- The timers that are due fire: their tasks become ready. -/
+def fireTimers (m : Sim) : Sim := Id.run do
+  let mut m := m
+  for a in [0:m.sys.svcs.length] do
+    for i in [0:(m.svc a).tasks.length] do
+      let ti := m.info[a]![i]!
+      if !(m.task a i).isDone && !ti.queued then
+        match ti.wake with
+        | some w => if w ≤ m.now then m := (m.setInfo a i (fun ti => { ti with queued := true })).push (.step a i)
+        | none => pure ()
+  return m
+
 /-- Let the clock run to `t`, handling every internal timer on the way. -/
 def runUntil (m : Sim) (t : Int) : Sim := Id.run do
   let mut m := m
@@ -270,7 +317,7 @@ def runUntil (m : Sim) (t : Int) : Sim := Id.run do
     | some w =>
       if w ≤ t then
         if w > m.now then m := m.emit (.advance (w - m.now).toNat)
-        m := m.drain
+        m := m.fireTimers.drain
       else break
     | none => break
   if t > m.now then m := m.emit (.advance (t - m.now).toNat)
@@ -304,8 +351,8 @@ def runCase (j : Json) : Except String Json := do
   let horizon ← getInt j "end"
   let n := limits.size
   let mut m : Sim := { sys := Sys.init extractedMode limits.toList, scripts := scripts,
-                       info := Array.replicate n #[], ctlCalls := Array.replicate n #[],
-                       nLoops := Array.replicate n 0 }
+                       info := Array.replicate n #[], rem := Array.replicate n #[],
+                       ctlCalls := Array.replicate n #[], nLoops := Array.replicate n 0 }
   let mut samples : Array Json := #[]
   let mut pendingPost : Option Json := none
   let mut first := true
@@ -322,18 +369,18 @@ def runCase (j : Json) : Except String Json := do
     for o in ops do
       let op ← getStr o "op"
       match op with
-      | "start" => m := m.doStart a (.svc a .start)
-      | "cancel" => m := m.emit (.svc a .cancel)
+      | "start" => m := m.emitStarting (.svc a .start)
+      | "cancel" => m := (m.emit (.svc a .cancel)).queueCancelled a
       | "add" =>
         let spec ← parseExtra o
         let before := (m.svc a).tasks.length
         m := m.emit (.svc a .addTask)
-        m := m.noteNewTasks a before (fun _ _ _ => { label := spec.label, isLoop := false, spec := spec })
-      | "stop" => m := { m with pend := m.pend.push (.call a .stop) }; syncOnly := false
-      | "wait" => m := { m with pend := m.pend.push (.call a .wait) }; syncOnly := false
+        m := m.noteNewTasks a before (fun _ => { label := spec.label, isLoop := false, spec := spec })
+      | "stop" => m := m.push (.callFirst a .stop); syncOnly := false
+      | "wait" => m := m.push (.callFirst a .wait); syncOnly := false
       | "run" =>
         let as_ ← (← getArr o "as").mapM (fun x => x.getNat?)
-        m := { m with pend := m.pend.push (.run as_.toList) }; syncOnly := false
+        m := m.push (.runFirst as_.toList); syncOnly := false
       | _ => throw s!"unknown op {op}"
     pendingPost := if syncOnly then some (m.snapshot a) else none
     m := m.drain
